@@ -356,6 +356,12 @@ impl<'a> QGen<'a> {
 
     fn name_sel(&self, rng: &mut Rng) -> String {
         let n = self.name(rng);
+        if self.safe_quotes && rng.chance(1, 20) && n.chars().next().map(|c| c.is_ascii_alphanumeric()).unwrap_or(false) && !n.contains('\'') {
+            // the first character written as a \uXXXX escape it does not need (a digit, too)
+            let first = n.chars().next().unwrap();
+            let rest: String = n.chars().skip(1).collect();
+            return format!("'\\u{:04x}{}'", first as u32, rest);
+        }
         if self.safe_quotes {
             // one time in three a quote inside the name is written as an escape (\' or \"); the names
             // carry no backslash, so Value's and a faithful get still see the same text
